@@ -114,6 +114,9 @@ func (m c10) Run(ctx *core.Ctx) {
 			s = gen.Input(ctx.Rng)
 		}
 		cs := &core.Case{Check: "string", N: ctx.Rng.IntN(6), Input: core.S(s), Ops: ops}
+		if ctx.Rng.IntN(4) == 0 {
+			cs.Config = []string{"singlepercent"}
+		}
 		ctx.Begin(cs)
 		m.Exec(ctx, cs)
 	}
@@ -218,7 +221,12 @@ func (c10) Exec(ctx *core.Ctx, cs *core.Case) {
 			}
 		}
 		pctInSet = ms('%')
-		p, ok := url.NewParser().(codec)
+		single := len(cs.Config) > 0 && cs.Config[0] == "singlepercent"
+		var pp url.Parser = url.NewParser()
+		if single {
+			pp = url.NewParser(url.WithPercentEncodeSinglePercentSign())
+		}
+		p, ok := pp.(codec)
 		if !ok {
 			ctx.Broken("PercentEncodeString/DecodePercentEncoded are not reachable on the value url.NewParser() returns")
 			return
@@ -236,6 +244,20 @@ func (c10) Exec(ctx *core.Ctx, cs *core.Case) {
 			return
 		}
 		want := refmodel.EncodeString(s, ms)
+		if single {
+			// documented effect of the option: a '%' that is not followed by two hex digits is
+			// encoded as %25; everything else as without the option
+			rs := []rune(s)
+			var sb strings.Builder
+			for i, r := range rs {
+				if r == '%' && !(i+2 < len(rs) && isHexRune(rs[i+1]) && isHexRune(rs[i+2])) {
+					sb.WriteString("%25")
+				} else {
+					sb.WriteString(refmodel.EncodeRune(r, ms))
+				}
+			}
+			want = sb.String()
+		}
 		member := false
 		for _, r := range sp {
 			if ms(r) {
@@ -298,4 +320,8 @@ func firstDiff(a, b string) string {
 		}
 	}
 	return "differs"
+}
+
+func isHexRune(r rune) bool {
+	return (r >= '0' && r <= '9') || (r >= 'a' && r <= 'f') || (r >= 'A' && r <= 'F')
 }
